@@ -2,7 +2,11 @@
    N/Z/positive/nat stay Coq datatypes; no Extract Constant). Run from the output dir. *)
 From Coq Require Import Extraction ExtrOcamlBasic.
 From KV Require Import Bytes WalCodec Memtable Engine.
+From KV Require Import LockDiscipline.
+From KV.gen Require Locks.
 Extraction Language OCaml.
+(* Coq's String module (identifiers of the C07 lock table) must not shadow OCaml's: it is emitted as String0 *)
+Extraction Blacklist String.
 Set Extraction Output Directory ".".
 Separate Extraction
   Bytes.crc32 Bytes.bcmp Bytes.le Bytes.unle
@@ -13,4 +17,5 @@ Separate Extraction
   Memtable.mt_iter_entries Memtable.seek_ge Memtable.mt_put Memtable.mt_del Memtable.mt_get
   Memtable.mt_set_imm Memtable.mt_empty
   Engine.init Engine.put Engine.del Engine.apply_batch Engine.tx_commit Engine.get Engine.flush
-  Engine.reopen Engine.run Engine.buffer_ops.
+  Engine.reopen Engine.run Engine.buffer_ops
+  LockDiscipline.protectedb LockDiscipline.flagged_rows LockDiscipline.acyclicb Locks.gen_accesses Locks.gen_order.
